@@ -100,8 +100,9 @@ constexpr flog::level level_values[n_levels] = {flog::level::verbose, flog::leve
 char const *const level_names[n_levels] = {"verbose", "debug", "info", "warning", "error", "fatal"};
 char const *const model_level_names[n_levels + 1] = {"verbose", "debug", "info", "warning", "error", "fatal", "nothing"};
 
-// three names per depth; some names occur at two depths (lookup is by name below one parent)
-char const *const names[3][3] = {{"a", "b", "c"}, {"a", "d", "e"}, {"b", "d", "f"}};
+// three names per depth; some names occur at two depths (lookup is by name below one parent) and at
+// every depth one name is a proper prefix of a sibling's name (lookup is by the whole name)
+char const *const names[3][3] = {{"a", "ab", "c"}, {"a", "d", "da"}, {"b", "d", "bd"}};
 
 flog::optional_level to_opt(int v) { return v == lv_nothing ? flog::optional_level{} : flog::optional_level{level_values[v]}; }
 int from_opt(flog::optional_level const &o)
